@@ -85,13 +85,21 @@ def limits(D):
     return out
 
 
+def exact_limits(D):
+    """Thresholds EQUAL to a candidate's distance, only where the comparison is exact in any reasonable implementation:
+    the distance is a small dyadic rational d, so d*d is exactly the accumulated cost (all costs are dyadic) and
+    'distance <= max_dist' holds without rounding in either representation.  dtw.distance(max_dist=d) returns d there."""
+    vals = sorted(set(d for d in D if d < inf and d > 0 and float(d * 64).is_integer()))
+    return vals[:2]
+
+
 def check_search(acc, E, query, cands, opts, nd, hist_too=False):
     D = ref_dists(query, cands, opts, nd)
     N = len(cands)
     nontrivial = False
-    for md in limits(D):
+    for md, exact in [(m, False) for m in limits(D)] + [(m, True) for m in exact_limits(D)]:
         limit = inf if md is None else md
-        for as_value in ((False, True) if md is not None else (False,)):
+        for as_value in ((False, True) if (md is not None and not exact) else (False,)):
             for use_lb in (True, False):
                 for use_c in (False, True):
                     for k in list(range(1, N + 2)) + [None]:
@@ -103,7 +111,7 @@ def check_search(acc, E, query, cands, opts, nd, hist_too=False):
                         why = repr(obs) if isinstance(obs, core.Exc) else judge(obs, D, limit, k)
                         if why:
                             acc.violation('knn', 'kbest_matches', 'c' if use_c else 'py',
-                                          {'what': 'knn', 'ndim': nd, 'use_lb': use_lb, 'k_none': k is None, 'max_dist_on': md is not None, 'psi_on': bool(opts.get('psi')),
+                                          {'what': 'knn', 'ndim': nd, 'use_lb': use_lb, 'k_none': k is None, 'max_dist_on': md is not None, 'threshold_equals_a_distance': exact, 'psi_on': bool(opts.get('psi')),
                                            'window_on': bool(opts.get('window')), 'ties': len(set(D)) < len(D)},
                                           {'query': query, 'candidates': cands, 'options': opts, 'ndim': nd, 'use_lb': use_lb, 'use_c': use_c, 'k': k, 'max_dist': kw['max_dist'], 'max_value': kw['max_value']},
                                           {'reference_distances': D}, {'observed': None if isinstance(obs, core.Exc) else obs, 'why': why})
@@ -269,9 +277,9 @@ def run(ctx):
         rule='E1: every candidate list of 1..%d series drawn with repetition (hence in every order) from pools built to create ties and duplicates x window x penalty x psi x every max_dist/max_value '
              'threshold class x use_lb x engine x every k in 1..N+1 and None; E2: every history up to depth %d over {kbest_matches(1|2|3|None), best_match, align(2), kbest_matches_fast(2), reset} on 3 candidate lists, and every depth-2 history on EVERY ordered candidate list of length 3 over the pools (use_lb on); '
              'non-trivial = a threshold excludes a candidate or k < N / history length >= 2' % (5 if ctx.thorough else 4, 4 if ctx.thorough else 3),
-        bounds={'pools': '2 univariate pools (6 and 5 series, lengths 1..4) and one 2-dimensional pool', 'thresholds': 'None, between best and 2nd best, a middle gap, above all, below all; as max_dist and as max_value'},
+        bounds={'pools': '2 univariate pools (6 and 5 series, lengths 1..4) and one 2-dimensional pool', 'thresholds': 'None, between best and 2nd best, a middle gap, above all, below all; as max_dist and as max_value; equal to the smallest two exactly representable distances (max_dist only)'},
         assumptions=['reference = sorted exhaustive reference DTW distances; indices are compared up to ties (a reported index must have the reported distance)',
-                     'thresholds are placed in gaps between distinct distances (never within rounding distance of a candidate)'],
+                     'thresholds are placed in gaps between distinct distances, or exactly ON a distance where that distance is a small dyadic rational (its square is exactly the accumulated cost, so <= is decided without rounding); never within rounding distance otherwise'],
         t0=ctx.t0)
 
 
